@@ -1,6 +1,7 @@
 package main
 
 import (
+	"encoding/json"
 	"fmt"
 	"go/ast"
 	"go/constant"
@@ -22,6 +23,7 @@ type TVal struct {
 	Ident  string // reference to a package-level function or variable (not constant)
 	Pos    token.Pos
 	Exact  string // source text of a float literal (for exact rational comparison)
+	KeyT   types.Type
 }
 
 // tableLiteral returns the evaluated initialiser of the package-level variable, or nil.
@@ -125,6 +127,9 @@ func (w *World) evalLit(info *types.Info, e ast.Expr, t types.Type) *TVal {
 				if kv, ok := el.(*ast.KeyValueExpr); ok {
 					if ktv, ok := info.Types[kv.Key]; ok && ktv.Value != nil {
 						next, _ = constant.Int64Val(constant.ToInt(ktv.Value))
+						if _, named := types.Unalias(ktv.Type).(*types.Named); named {
+							v.KeyT = ktv.Type
+						}
 					}
 					val = kv.Value
 				}
@@ -349,4 +354,254 @@ func (g *Gen) tableFuncs(gl *ssa.Global) (has, val string, ok bool) {
 	g.tblOK[key] = true
 	g.trusted["table "+gl.Name()+" is read from its composite literal; it is never written after package initialisation (checked by a scan of all module functions)"] = true
 	return key + "$has", key + "$val", true
+}
+
+// ---- table obligations: a package-level table literal against a table transcribed from the RFC ----
+
+type tableSpec struct {
+	Table   string                     `json:"table"`  // "<relpkg>.<var>"
+	Source  string                     `json:"source"` // where the expected content comes from
+	Enc     string                     `json:"enc"`    // "runes2": expected "0n" means a struct of two runes
+	Keys    []string                   `json:"rfc_keys"`
+	Rows    map[string]json.RawMessage `json:"rows"`
+	Props   []string                   `json:"properties"`
+	Closed  bool                       `json:"closed"` // rows not listed must not exist (restricted to rfc_keys)
+	Comment string                     `json:"comment"`
+}
+
+// constName finds the name of the constant of named type t with the given value.
+func constName(t types.Type, v constant.Value) string {
+	n, ok := types.Unalias(t).(*types.Named)
+	if !ok || n.Obj().Pkg() == nil {
+		return v.ExactString()
+	}
+	sc := n.Obj().Pkg().Scope()
+	for _, name := range sc.Names() {
+		if c, ok := sc.Lookup(name).(*types.Const); ok && types.Identical(c.Type(), t) && constant.Compare(c.Val(), token.EQL, v) {
+			return name
+		}
+	}
+	return v.ExactString()
+}
+
+// render gives a canonical text of a table value: numbers exactly, structs as [f1,f2], maps as {k:v,...}.
+func renderTVal(v *TVal, keyType func(*TVal) types.Type) string {
+	if v == nil {
+		return "null"
+	}
+	if v.Const != nil {
+		if v.Exact != "" {
+			return v.Exact
+		}
+		if v.Const.Kind() == constant.String {
+			return strconvQuote(constant.StringVal(v.Const))
+		}
+		return v.Const.ExactString()
+	}
+	if v.Ident != "" {
+		s := v.Ident
+		if len(v.Elems) > 0 {
+			var as []string
+			for _, e := range v.Elems {
+				as = append(as, renderTVal(e, keyType))
+			}
+			s += "(" + strings.Join(as, ",") + ")"
+		}
+		return s
+	}
+	if v.Fields != nil {
+		var fs []string
+		for _, f := range v.Fields {
+			fs = append(fs, renderTVal(f, keyType))
+		}
+		return "[" + strings.Join(fs, ",") + "]"
+	}
+	if v.Keys != nil || v.Elems != nil {
+		kt := keyType(v)
+		var es []string
+		for i, k := range v.Keys {
+			es = append(es, constName(kt, k)+":"+renderTVal(v.Elems[i], keyType))
+		}
+		sort.Strings(es)
+		return "{" + strings.Join(es, ",") + "}"
+	}
+	return "?"
+}
+
+func strconvQuote(s string) string { return fmt.Sprintf("%q", s) }
+
+func tableKeyType(v *TVal) types.Type {
+	if v.KeyT != nil {
+		return v.KeyT
+	}
+	switch u := types.Unalias(v.Type).Underlying().(type) {
+	case *types.Map:
+		return u.Key()
+	}
+	return types.Typ[types.Int]
+}
+
+// arrayIndexConstType: for [...]T{Const: v} literals the index constants' type is found from the AST; we fall back to int.
+type tableRow struct {
+	Name     string
+	Actual   string
+	Expected string
+	OK       bool
+	Pos      string
+}
+
+// checkTable compares the literal with the spec, one row per obligation.
+func (w *World) checkTable(ts *tableSpec, idxType types.Type) ([]tableRow, error) {
+	i := strings.LastIndex(ts.Table, ".")
+	rel, name := ts.Table[:i], ts.Table[i+1:]
+	pkgPath := modPath + "/" + rel
+	tv := w.tableLiteral(pkgPath, name)
+	if tv == nil {
+		return nil, fmt.Errorf("table %s: no composite literal found", ts.Table)
+	}
+	kt := tableKeyType(tv)
+	if _, isMap := types.Unalias(tv.Type).Underlying().(*types.Map); !isMap && idxType != nil {
+		kt = idxType
+	}
+	inKeys := map[string]bool{}
+	for _, k := range ts.Keys {
+		inKeys[k] = true
+	}
+	actual := map[string]*TVal{}
+	for k, key := range tv.Keys {
+		actual[constName(kt, key)] = tv.Elems[k]
+	}
+	var rows []tableRow
+	var names []string
+	for n := range ts.Rows {
+		names = append(names, n)
+	}
+	sort.Strings(names)
+	keyTypeFn := func(v *TVal) types.Type { return tableKeyType(v) }
+	for _, n := range names {
+		var exp interface{}
+		json.Unmarshal(ts.Rows[n], &exp)
+		row := tableRow{Name: n}
+		av := actual[n]
+		if av != nil {
+			row.Pos = w.Fset.Position(av.Pos).String()
+		}
+		switch e := exp.(type) {
+		case map[string]interface{}:
+			// nested map row: compare restricted to the RFC keys
+			got := map[string]string{}
+			if av != nil {
+				for k, key := range av.Keys {
+					cn := constName(tableKeyType(av), key)
+					if len(ts.Keys) == 0 || inKeys[cn] {
+						got[cn] = renderTVal(av.Elems[k], keyTypeFn)
+					}
+				}
+			}
+			want := map[string]string{}
+			for k, v := range e {
+				want[k] = encodeExpected(ts.Enc, v)
+			}
+			row.Actual, row.Expected = canonMap(got), canonMap(want)
+		default:
+			row.Expected = encodeExpected(ts.Enc, exp)
+			row.Actual = renderTVal(av, keyTypeFn)
+		}
+		row.OK = row.Actual == row.Expected
+		rows = append(rows, row)
+	}
+	if ts.Closed {
+		var extra []string
+		for n := range actual {
+			if _, listed := ts.Rows[n]; !listed && (len(ts.Keys) == 0 || inKeys[n]) {
+				extra = append(extra, n)
+			}
+		}
+		sort.Strings(extra)
+		rows = append(rows, tableRow{Name: "(no other rows)", Actual: strings.Join(extra, ","), Expected: "", OK: len(extra) == 0})
+	}
+	return rows, nil
+}
+
+func canonMap(m map[string]string) string {
+	var ks []string
+	for k := range m {
+		ks = append(ks, k)
+	}
+	sort.Strings(ks)
+	var es []string
+	for _, k := range ks {
+		es = append(es, k+":"+m[k])
+	}
+	return "{" + strings.Join(es, ",") + "}"
+}
+
+func encodeExpected(enc string, v interface{}) string {
+	switch x := v.(type) {
+	case string:
+		if enc == "runes2" && len(x) == 2 {
+			return fmt.Sprintf("[%d,%d]", x[0], x[1])
+		}
+		if enc == "raw" {
+			return x
+		}
+		return strconvQuote(x)
+	case float64:
+		return fmt.Sprintf("%d", int64(x))
+	case []interface{}:
+		var es []string
+		for _, e := range x {
+			es = append(es, encodeExpected("raw", e))
+		}
+		return "[" + strings.Join(es, ",") + "]"
+	case nil:
+		return "null"
+	}
+	return fmt.Sprint(v)
+}
+
+// ---- footprint obligations: which functions read / write a struct field ----
+
+type footprintSpec struct {
+	Field   string   `json:"field"` // "<relpkg>.<Struct>.<field>"
+	Writers []string `json:"writers"`
+	Readers []string `json:"readers"`
+	Why     string   `json:"why"`
+}
+
+func (w *World) fieldFootprint(field string) (readers, writers map[string]bool) {
+	readers, writers = map[string]bool{}, map[string]bool{}
+	parts := strings.Split(field, ".")
+	fname := parts[len(parts)-1]
+	sname := strings.Join(parts[:len(parts)-1], ".")
+	for key, fn := range w.Funcs {
+		for _, b := range fn.Blocks {
+			for _, ins := range b.Instrs {
+				fa, ok := ins.(*ssa.FieldAddr)
+				if !ok {
+					continue
+				}
+				st := ptrElem(fa.X.Type())
+				if st == nil || typeName(st) != sanitize(sname) {
+					continue
+				}
+				u := types.Unalias(st).Underlying().(*types.Struct)
+				if u.Field(fa.Field).Name() != fname {
+					continue
+				}
+				isStore := false
+				for _, r := range *fa.Referrers() {
+					if s, ok := r.(*ssa.Store); ok && s.Addr == fa {
+						isStore = true
+					}
+				}
+				if isStore {
+					writers[key] = true
+				} else {
+					readers[key] = true
+				}
+			}
+		}
+	}
+	return
 }
